@@ -315,6 +315,90 @@ func branchClasses() []class {
 	return cs
 }
 
+// branchMember is the membership predicate of the words enumerated by branchClasses.
+func branchMember() func(w uint32) bool {
+	in := func(l []uint32) map[uint32]bool {
+		m := make(map[uint32]bool, len(l))
+		for _, v := range l {
+			m[v] = true
+		}
+		return m
+	}
+	l26, l21 := in(immList(26)), in(immList(21))
+	return func(w uint32) bool {
+		rt := w & 31
+		switch {
+		case w&0xFF000000 == 0x54000000:
+			return rt == 0 || rt == 1 || rt == 0xe || rt == 0xf || rt == 0x10
+		case w&0x7E000000 == 0x34000000:
+			sf := w >> 31
+			return sf == 0 && (rt == 0 || rt == 30) || sf == 1 && (rt == 1 || rt == 31)
+		case w&0x3B000000 == 0x18000000:
+			opc, v := w>>30, w>>26&1
+			for _, s := range [][3]uint32{{0, 0, 0}, {1, 0, 1}, {2, 0, 30}, {3, 0, 31}, {0, 1, 0}, {1, 1, 5}, {2, 1, 31}, {3, 1, 0}} {
+				if s[0] == opc && s[1] == v && s[2] == rt {
+					return true
+				}
+			}
+			return false
+		case w&0x7E000000 == 0x36000000:
+			b5, b40 := w>>31, w>>19&31
+			for _, s := range [][3]uint32{{0, 0, 0}, {0, 31, 1}, {1, 0, 30}, {1, 31, 31}} {
+				if s[0] == b5 && s[1] == b40 && s[2] == rt {
+					return true
+				}
+			}
+			return false
+		case w&0x7C000000 == 0x14000000:
+			return l26[w&0x3FFFFFF]
+		case w&0x1F000000 == 0x10000000:
+			return (rt == 0 || rt == 31) && l21[(w>>5&0x7FFFF)<<2|w>>29&3]
+		}
+		return false
+	}
+}
+
+// runPatterns lists the 21-bit values that consist of at most maxRuns runs of equal bits
+// (0…01…1, 1…10…01…1, …): every field of the low 21 bits at all-zeros / all-ones, in all
+// combinations of up to maxRuns field boundaries.
+func runPatterns(maxRuns int) []uint32 {
+	set := map[uint32]struct{}{}
+	var rec func(pos uint, bit uint32, runs int, v uint32)
+	rec = func(pos uint, bit uint32, runs int, v uint32) {
+		if pos == 21 {
+			set[v] = struct{}{}
+			return
+		}
+		// continue the current run
+		rec(pos+1, bit, runs, v|bit<<pos)
+		if pos > 0 && runs < maxRuns {
+			rec(pos+1, bit^1, runs+1, v|(bit^1)<<pos)
+		}
+	}
+	rec(0, 0, 1, 0)
+	rec(0, 1, 1, 0)
+	l := make([]uint32, 0, len(set))
+	for v := range set {
+		l = append(l, v)
+	}
+	sort.Slice(l, func(i, j int) bool { return l[i] < l[j] })
+	return l
+}
+
+// structuredClasses are the further complete sub-spaces of the quick tier: the whole
+// system-instruction space (hints, barriers, PSTATE, SYS/SYSL, MSR/MRS — dense with special
+// cases) and, for every value of the 11 opcode bits 31..21, every low-21-bit value made of at
+// most 4 runs of equal bits (register fields at 0 / 31, immediates at 0 / all-ones, in all
+// combinations).
+func structuredClasses() []class {
+	pats := runPatterns(4)
+	np := uint64(len(pats))
+	return []class{
+		{name: "system-space", batches: []batch{{n: 1 << 22, word: func(i uint64) uint32 { return 0xD5000000 | uint32(i) }}}},
+		{name: "field-boundary-patterns", batches: []batch{{n: 2048 * np, word: func(i uint64) uint32 { return uint32(i/np)<<21 | pats[i%np] }}}},
+	}
+}
+
 // Run is the worker entry point.
 func Run(c *vk.Ctx) {
 	k := &checker{c: c, groups: map[string]*group{}}
@@ -393,8 +477,19 @@ func Run(c *vk.Ctx) {
 			c.Res.Extra["n_class_"+cl.name] = k.words - before
 		}
 		nBranch = k.words - nResidue
+		inBranch := branchMember()
+		for ci, cl := range structuredClasses() {
+			before := k.words
+			ci := ci
+			for i := range cl.batches {
+				b := cl.batches[i]
+				b.skip = func(w uint32) bool { return inRes(w) || inBranch(w) || ci == 1 && w>>22 == 0x354 }
+				runBatch(&b, 1<<12)
+			}
+			c.Res.Extra["n_class_"+cl.name] = k.words - before
+		}
 		c.Res.Exhaustive = false
-		c.Res.Extra["space"] = fmt.Sprintf("words = %d mod %d, plus PC-relative classes", r, residueMod)
+		c.Res.Extra["space"] = fmt.Sprintf("words = %d mod %d, plus PC-relative classes, the system-instruction space 0xD5000000-0xD53FFFFF and opcode bits x low-21-bit run patterns", r, residueMod)
 		c.Res.Extra["residue"] = r
 	}
 
